@@ -229,11 +229,12 @@ def ode_case(draw):
     # longer spans for higher fixed orders so that >= 3 resolutions with >= 8 steps stay above the rounding floor
     T = draw(st.floats(1.0, 3.0)) * ({4: 1.0, 6: 1.5, 8: 2.5}[method[1]] if method[0] == "fixed" else 1.0)
     tol = draw(st.sampled_from([1e-6, 1e-8, 1e-10]))
+    atol = draw(st.sampled_from([tol, tol, tol * 1e-2, tol * 1e2]))
     grid = draw(st.sampled_from(["uniform", "nonuniform"]))
     npts = draw(st.integers(3, 40))
     gs = draw(st.integers(0, 2 ** 31))
     return {"kind": kind, "par": A + Q + F + G + [w], "x0": x0, "T": T, "method": method[0], "order": method[1],
-            "tol": tol, "grid": grid, "npts": npts, "gs": gs}
+            "tol": tol, "atol": atol, "grid": grid, "npts": npts, "gs": gs}
 
 
 def _grid(case):
@@ -322,13 +323,14 @@ def eval_ode(case, ctx):
         ctx.case(cls="ode:reference-unusable")
         return
     tol = case["tol"]
+    at0 = case.get("atol", tol)
     fam = "RK45" if p == 5 else "DOP853"
-    ssol = solve_ivp(lambda t, x: tmpl_np(t, x, par), (0.0, T), np.array(case["x0"], float), method=fam, rtol=tol, atol=tol, t_eval=tv)
-    bound = tol * np.abs(ref) + tol
+    ssol = solve_ivp(lambda t, x: tmpl_np(t, x, par), (0.0, T), np.array(case["x0"], float), method=fam, rtol=tol, atol=at0, t_eval=tv)
+    bound = tol * np.abs(ref) + at0
     r_scipy = float(np.max(np.abs(ssol.y.T - ref) / bound)) if ssol.success else 1.0
     res = {}
     for tt in (tol, tol * 1e-2):
-        integ = AdaptiveRK(order=p, rtol=tt, atol=tt)
+        integ = AdaptiveRK(order=p, rtol=tt, atol=at0 * (tt / tol))
         sol = integ.integrate(sysm, y0.copy(), tv)
         X = np.asarray(sol.states)[:, :3]
         if tt == tol:
@@ -347,7 +349,7 @@ def eval_ode(case, ctx):
     K = 200.0 * max(1.0, r_scipy)
     ctx.extra.setdefault("adaptive_err_over_tol_max_per_shard", [0.0])
     ctx.extra["adaptive_err_over_tol_max_per_shard"][0] = max(ctx.extra["adaptive_err_over_tol_max_per_shard"][0], ratio / max(1.0, r_scipy))
-    ratio2 = float(np.max(res[tol * 1e-2] / (tol * 1e-2 * np.abs(ref) + tol * 1e-2)))
+    ratio2 = float(np.max(res[tol * 1e-2] / (tol * 1e-2 * np.abs(ref) + at0 * 1e-2)))
     if emax2 > 1e3 * floor and not ratio2 <= K:
         ctx.fail("error-exceeds-tolerance-multiple:adaptive%d" % p, case,
                  "max error/(rtol|y|+atol) = %.3g at tol=%g (allowed %.3g)" % (ratio2, tol * 1e-2, K))
@@ -366,8 +368,10 @@ def ham_case(draw):
     x0 = [draw(st.floats(-0.4, 0.4)) for _ in range(6)]
     method = draw(st.sampled_from([("fixed", 4), ("fixed", 6), ("fixed", 8), ("adaptive", 5), ("adaptive", 8)]))
     T = draw(st.floats(1.0, 3.0)) * ({4: 1.0, 6: 1.5, 8: 3.0}[method[1]] if method[0] == "fixed" else 1.0)
-    return {"H": H, "x0": x0, "T": T, "method": method[0], "order": method[1],
-            "tol": draw(st.sampled_from([1e-7, 1e-9]))}
+    amp = draw(st.sampled_from([1.0, 1.0, 1e-2, 1e-3]))
+    tol = draw(st.sampled_from([1e-7, 1e-9]))
+    return {"H": H, "x0": [v * amp for v in x0], "T": T, "method": method[0], "order": method[1],
+            "tol": tol, "atol": draw(st.sampled_from([tol, tol * 1e-3, tol * 1e-2, tol * 1e2]))}
 
 
 _hs = {}
@@ -411,15 +415,16 @@ def eval_ham(case, ctx):
             ctx.fail("observed-order-below-declared:hamiltonian-fixed%d" % p, case,
                      "declared order %d, best of the two finest log2 ratios %.2f, errors %s" % (p, float(max(ratios[-2:])), ["%d:%.2e" % ne for ne in good]))
     else:
-        tol = case["tol"]
+        tol = case["tol"]; atol = case.get("atol", tol)
         tv = np.linspace(0.0, T, 7)
         refs = hamtools.ref_flow(KC, x0, tv)
-        sol = AdaptiveRK(order=p, rtol=tol, atol=tol).integrate(hs, x0.copy(), tv)
+        sol = AdaptiveRK(order=p, rtol=tol, atol=atol).integrate(hs, x0.copy(), tv)
         err = np.abs(np.asarray(sol.states) - refs)
-        ratio = float(np.max(err / (tol * np.abs(refs) + tol)))
+        # mixed error control: the norm is an RMS over components of err/(atol + rtol*|y|); judge it the same way
+        ratio = float(np.max(np.sqrt(np.mean((err / (tol * np.abs(refs) + atol)) ** 2, axis=1))))
         ctx.case(nontrivial=("ham", repr(case)), cls=["ham:adaptive%d" % p, "ham:nonsep" if case["H"]["nonsep"] else "ham:sep"])
         if not ratio <= 200.0:
-            ctx.fail("error-exceeds-tolerance-multiple:hamiltonian-adaptive%d" % p, case, "max error/(rtol|y|+atol) = %.3g at tol=%g" % (ratio, tol))
+            ctx.fail("error-exceeds-tolerance-multiple:hamiltonian-adaptive%d" % p, case, "RMS error/(rtol|y|+atol) = %.3g at rtol=%g atol=%g" % (ratio, tol, atol))
 
 
 def run(ctx):
